@@ -155,6 +155,20 @@ class Transport:
         for p in h.rt.get_peers():
             if (p.address, p.udp_port) == tuple(addr):
                 nid = p.node_id
+        race = h.meanwhile
+        if race is not None and nid is not None and not h.probed and nid in h.model:
+            # the probed contact itself gets in touch from another endpoint while the ping to its old endpoint is in flight
+            # (it restarted / its NAT mapping changed): that add completes first, then the old endpoint's ping times out
+            h.meanwhile = None
+            h.probed.append((nid, tuple(addr), "timeout"))
+            new_addr = race["addr"]
+
+            async def refresh():
+                ok = await h.p._add_peer(h.make_peer(nid, new_addr[0], new_addr[1]))
+                h.raced = (nid, tuple(addr), tuple(new_addr), ok)
+                h.bump(RPC_TIMEOUT + 1.0)
+            h.race_task = h.loop.create_task(refresh())
+            return
         h.probed.append((nid, tuple(addr), outcome))
         if nid is None:
             nid = hid("ghost", 0)
@@ -196,6 +210,9 @@ class Harness:
         self.seen = []
         self.outcomes = []
         self.probed = []
+        self.meanwhile = None
+        self.raced = None
+        self.race_task = None
         self.splits = 0
         self.middle_joins = 0
         self.joins = 0
@@ -381,14 +398,27 @@ def op_add(h, op, out, step, forced_addr=None):
     peer = h.make_peer(node_id, addr[0], addr[1])
     h.outcomes = list(op["probe"])
     h.probed = []
+    h.raced = None
+    h.meanwhile = None
+    if op.get("race") is not None:
+        x = int.from_bytes(hid("raceaddr", op["race"]), "big")
+        h.meanwhile = {"addr": ("8.%d.%d.%d" % (1 + x % 250, (x >> 8) % 256, 1 + (x >> 16) % 250), 1024 + (x >> 24) % 60000)}
     nsplit = h.splits
     good, res = call(out, "add_peer", h.aio.run, h.p._add_peer(peer))
+    h.meanwhile = None
+    if h.raced is not None:
+        rn, rold, rnew, rok = h.raced
+        out.label("refresh-during-probe")
+        if rnew in before.values() or rnew == addr:
+            out.label("refresh-during-probe:address-in-use")     # don't-care mixture
+            before = {k: a for k, a in before.items() if a != rnew}
+        before[rn] = rnew if rok else before[rn]
     # contacts the protocol decided to drop because their ping failed and they are now bad
     to_remove = sorted(h.p._to_remove, key=lambda p: (p.node_id or b"", p.address, p.udp_port or 0))
     h.p._to_remove.clear()
     h.p._to_add.clear()
     h.p._wakeup_routing_task.clear()
-    failed = {nid for nid, a, o in h.probed if o != "ok"}
+    failed = {nid for nid, a, o in h.probed if o != "ok" and before.get(nid, a) == a}
     answered = {nid for nid, a, o in h.probed if o == "ok"}
     for nid, a, o in h.probed:
         out.label("probe-" + o)
@@ -604,6 +634,8 @@ def history(tier):
     add = st.one_of(
         st.fixed_dictionaries({"op": st.just("add"), "id": new_id, "addr": fresh_addr, "probe": probe}),
         st.fixed_dictionaries({"op": st.just("add"), "id": new_id, "addr": fresh_addr, "probe": probe}),
+        st.fixed_dictionaries({"op": st.just("add"), "id": new_id, "addr": fresh_addr, "probe": probe,
+                               "race": st.integers(0, 10 ** 6)}),
         st.fixed_dictionaries({"op": st.just("add"), "id": new_id, "addr": addr, "probe": probe}),
         st.fixed_dictionaries({"op": st.just("add"), "id": existing, "addr": same_addr, "probe": probe}),
         st.fixed_dictionaries({"op": st.just("add"), "id": any_id, "addr": addr, "probe": probe}))
@@ -660,5 +692,5 @@ PARTS = [
          essential=("split", "run-with-middle-join", "eviction-path", "probe-ok", "probe-timeout", "probe-remote",
                     "bootstrap", "id-bucket-boundary", "id-prefix-boundary", "re-add", "same-id-new-address",
                     "new-id-used-address", "remove-existing", "remove-unknown", "query-selective", "must-admit",
-                    "may-reject", "displaced-after-failed-probe")),
+                    "may-reject", "displaced-after-failed-probe", "refresh-during-probe")),
 ]
